@@ -18,6 +18,8 @@ def run_cases(cases, res, stratum):
         s, nw, nf = c['f']; n = c['n']; codes = c['codes']; arr = len(codes) > 1
         try:
             x = A.mk(fx, np, s, nw, nf, codes if arr else codes[0], shape=(len(codes),) if arr else None, shifting=c['mode'])
+            if arr and len(codes) == 4 and c.get('layoutT'):      # a transposed 2 x 2 view (not C-contiguous) holding the codes in reading order
+                x = A.mk(fx, np, s, nw, nf, [codes[0], codes[2], codes[1], codes[3]], shape=(2, 2), shifting=c['mode']).T
             if not arr and c.get('elem'):       # the operand is an element taken out of an array by indexing (its raw value is a NumPy scalar)
                 x = A.mk(fx, np, s, nw, nf, [codes[0], 0] if c['elem'] == 1 else [0, 0, codes[0]], shape=(2,) if c['elem'] == 1 else (3,), shifting=c['mode'])[0 if c['elem'] == 1 else 2]
             nn = n
@@ -121,11 +123,11 @@ def shard(shard, nshards, rng, tier, extra):
     for _ in range((7500 if tier == 'quick' else 60000) // nshards):
         nw = rng.choice([7, 8, 12, 16, 24, 31, 32, rng.randint(7, 32)]); s = rng.random() < 0.6; nf = rng.choice([0, nw // 2]); lo, hi = S.fmt_bounds(s, nw)
         n = rng.randint(0, min(nw + 3, 62 - nw))
-        k = rng.choice([1, 1, 1, 3])
+        k = rng.choice([1, 1, 1, 3, 4])
         def code():
             return rng.choice([lo, hi, 0, 1, -1 if s else 1, lo + 1, hi - 1, rng.randint(lo, hi), (rng.randint(lo, hi) >> rng.randint(0, 6)) << rng.randint(0, 6)])
         cs = [max(lo, min(hi, code())) for _ in range(k)]
-        cases.append({'f': [s, nw, nf], 'codes': cs, 'n': n, 'mode': rng.choice(MODES), 'count': rng.choice(['int', 'int', 'np.int64', 'np.uint8']), 'elem': rng.choice([0, 0, 1, 2])})
+        cases.append({'f': [s, nw, nf], 'codes': cs, 'n': n, 'mode': rng.choice(MODES), 'count': rng.choice(['int', 'int', 'np.int64', 'np.uint8']), 'elem': rng.choice([0, 0, 1, 2]), 'layoutT': len(cs) == 4 and rng.random() < 0.7})
     run_cases(cases, res, 'B:boundary-random-to-32')
     # C: wider words (33..96) and large counts: the shifted code leaves int64 / uint64, object arrays of Python integers
     cases = []
